@@ -541,6 +541,19 @@ fn c07_regions(g: &Arc<Grammar>, d: usize, cfgs: &[Cfg], all_spellings: bool) ->
                         // (an inline toggle comment lengthens the last line of the prefix)
                         let pl = if boundary[i] && own_line { Some(prefix_len) } else { None };
                         o3::c07(&x, pl, c, ctx);
+                        if j == n + 1 {
+                            // a region that runs to the end of the file: ends of the file without a final
+                            // line terminator (after the toggle itself, a line comment, code, blanks)
+                            for tail in ["", "//c", "{c}", "a", "  ", "\t//"] {
+                                let mut y = x.trim_end_matches('\n').to_string();
+                                if !tail.is_empty() {
+                                    y.push('\n');
+                                    y.push_str(tail);
+                                }
+                                ctx.sub_eval();
+                                o3::c07(&y, None, c, ctx);
+                            }
+                        }
                         if !block && j == n + 1 {
                             // the same with lone-CR line ends around the toggle comment
                             let y = x.replacen(&format!("\n{}\n", o3::TOGGLE_OFF[sp]), &format!("\r{}\r", o3::TOGGLE_OFF[sp]), 1);
@@ -1297,7 +1310,7 @@ pub fn families(check: &str, tier: &str) -> Vec<Box<dyn Family>> {
                 cfg::DEFAULT.with(|c| { c.tabs = true; c.ci = 3; }),
             ];
             if quick {
-                vec![Box::new(o3::C12Family { max_lines: 2, cfgs: vec![base[0], base[1], base[2], base[3], base[6], base[7]], quotes: vec![3, 5], positions: vec![0, 4, 5, 6] })]
+                vec![Box::new(o3::C12Family { max_lines: 2, cfgs: vec![base[0], base[1], base[2], base[3], base[6], base[7]], quotes: vec![3, 5], positions: vec![0, 4, 5, 6, 7, 8, 9, 10] })]
             } else {
                 vec![
                     Box::new(o3::C12Family { max_lines: 2, cfgs: base.to_vec(), quotes: vec![3, 5, 7], positions: (0..o3::C12_POSITIONS).collect() }),
